@@ -39,7 +39,22 @@ def _blk(fn_node, stmt):
     return []
 
 
+def round14_repairs(ctx: Ctx):
+    """Two repairs of round 14 as obligations."""
+    from .sat_common import _need
+
+    ns = ctx.func("network_simplex", "network_simplex")
+    _need(ctx, "C09-O7", "R18 table", ns, "node potentials start as exact integers (with integer costs every reduced cost is then exact)", ["pi = [0] * total_nodes"], "float potentials carry the big-M of the artificial arcs - (sum of |cost|) * n - which passes 2**53 long before a single cost does: a cost difference of 1 between parallel arcs is rounded away and a dearer flow is called OPTIMAL (costs of 1e12 on 40 nodes: ledger row 65)")
+    mcf = ctx.func("flow", "min_cost_flow")
+    cfg = cfg_of(mcf.node)
+    guards = [n for n in mcf.node.body if isinstance(n, ast.If) and ast.unparse(n.test) in ("demand < 0", "0 > demand") and any(isinstance(x, ast.Raise) for x in n.body)]
+    loops = [n for n in own_nodes(mcf.node) if isinstance(n, ast.While) and "demand" in names_in(n.test)]
+    ok = len(guards) == 1 and bool(loops) and all(cfg.dominates(cfg.stmt_node_containing(guards[0].test), cfg.stmt_node_containing(l_.test)) for l_ in loops)
+    ctx.ob("C09-O1", "R14 GATE", mcf, "a negative demand is rejected before the augmenting loop", ok, "with demand < 0 the loop `while total_flow < demand` never runs and the empty flow is reported as OPTIMAL with cost 0 (ledger row 66)", node=guards[0] if guards else mcf.node)
+
+
 def run(ctx: Ctx):
+    ctx.step(round14_repairs)
     f = ctx.func("flow", "min_cost_flow")
     bf = ctx.func("flow", "min_cost_flow.bellman_ford")
     cfg = cfg_of(f.node)
@@ -441,7 +456,19 @@ def _v_capacity_clamp_presolve(tree):
     M.insert(g, "big_m = ", "flow_bound = int(max(abs(s) for s in supplies))\nfor i in range(m):\n    if cap[i] > flow_bound:\n        cap[i] = flow_bound")
 
 
+def _v_float_potentials(tree):
+    g = M.find_func(tree, "network_simplex")
+    M.replace_stmt(g, lambda s: M.src_is(s, "pi = [0] * total_nodes"), M.stmts("pi = [0.0] * total_nodes"))
+
+
+def _v_negative_demand_accepted(tree):
+    g = M.find_func(tree, "min_cost_flow")
+    M.replace_stmt(g, lambda s: isinstance(s, ast.If) and M.src_is(s.test, "demand < 0"), [])
+
+
 VARIANTS = [
+    M.Variant("network_simplex keeps float potentials (original defect, ledger row 65)", NS, _v_float_potentials, "C09-O7"),
+    M.Variant("min_cost_flow accepts a negative demand (original defect, ledger row 66)", FL, _v_negative_demand_accepted, "C09-O1"),
     M.Variant("network_simplex clamps capacities to the largest single supply (seed C09-R)", NS, _v_capacity_clamp_presolve, "C09-O7"),
     M.Variant("network_simplex falls through to its verdicts when the pivot budget runs out (original defect)", NS, _v_budget_exit_falls_through, "C09-O3"),
     M.Variant("network_simplex keeps the last parallel arc only (original defect)", NS, _v_flowdict_comprehension, "C09-O5"),
